@@ -24,6 +24,7 @@ import (
 	"fmt"
 	"math/bits"
 	"reflect"
+	"regexp"
 	"sort"
 	"strconv"
 	"strings"
@@ -44,8 +45,11 @@ type Case struct {
 	DocB64  string   `json:"doc_b64,omitempty"` // otherwise, base64 of the bytes
 	Mode    string   `json:"mode"`              // "value": VMValueFromJSON, bound as x and (a second decode) y; "map": json.Unmarshal into a ValueMap used as the VM's variable store
 	Scripts []string `json:"scripts"`           // scripts run one by one, each on a fresh decode in a fresh VM
-	NoGo    bool     `json:"no_go,omitempty"`   // skip the Go-level battery (failure records of a script)
-	Go      []string `json:"go,omitempty"`      // run only these Go-level operations (failure records of a Go operation)
+	// Doc2 (value mode): y is decoded from this document instead of from Doc a second time: another version of the same
+	// stored value (a parameter added or dropped, attributes lost, an element appended, a function renamed)
+	Doc2 string   `json:"doc2,omitempty"`
+	NoGo bool     `json:"no_go,omitempty"` // skip the Go-level battery (failure records of a script)
+	Go   []string `json:"go,omitempty"`    // run only these Go-level operations (failure records of a Go operation)
 }
 
 func newCase(doc []byte, mode string, scripts []string) Case {
@@ -77,6 +81,10 @@ type env struct {
 
 // decode builds a fresh environment from the document.  perr is a panic of the decoder.
 func decode(doc []byte, mode string) (e *env, err error, perr *rt.PanicInfo) {
+	return decode2(doc, nil, mode)
+}
+
+func decode2(doc, doc2 []byte, mode string) (e *env, err error, perr *rt.PanicInfo) {
 	e = &env{mode: mode}
 	perr = rt.Guard(func() {
 		if mode == "map" {
@@ -101,6 +109,12 @@ func decode(doc []byte, mode string) (e *env, err error, perr *rt.PanicInfo) {
 		}
 		e.x, err = ds.VMValueFromJSON(doc)
 		if err == nil {
+			if doc2 != nil {
+				if y, err2 := ds.VMValueFromJSON(doc2); err2 == nil {
+					e.y = y
+					return
+				}
+			}
 			e.y, err = ds.VMValueFromJSON(doc)
 		}
 	})
@@ -722,7 +736,11 @@ func checkCase(c Case, s *rt.Section, o opts) (*rt.Failure, *stats) {
 	if mode != "map" {
 		mode = "value"
 	}
-	e, err, perr := decode(doc, mode)
+	var doc2 []byte
+	if c.Doc2 != "" && mode == "value" {
+		doc2 = []byte(c.Doc2)
+	}
+	e, err, perr := decode2(doc, doc2, mode)
 	if perr != nil {
 		return s.NewFailure("decoder-no-panic", perr.Sig(), c, "decoding panics: "+perr.Value+"\n"+clip(perr.Stack, 1500), "an error or a value"), st
 	}
@@ -764,7 +782,7 @@ func checkCase(c Case, s *rt.Section, o opts) (*rt.Failure, *stats) {
 	}
 
 	fresh := func() *env {
-		f, err, perr := decode(doc, mode)
+		f, err, perr := decode2(doc, doc2, mode)
 		if err != nil || perr != nil {
 			return nil
 		}
@@ -787,7 +805,7 @@ func checkCase(c Case, s *rt.Section, o opts) (*rt.Failure, *stats) {
 				}
 			}
 		}
-		rec := Case{Doc: c.Doc, DocB64: c.DocB64, Mode: mode, Scripts: scriptsFor(op), NoGo: !strings.HasPrefix(op, "go:")}
+		rec := Case{Doc: c.Doc, DocB64: c.DocB64, Doc2: c.Doc2, Mode: mode, Scripts: scriptsFor(op), NoGo: !strings.HasPrefix(op, "go:")}
 		if !rec.NoGo {
 			rec.Go = []string{op}
 		}
@@ -1177,6 +1195,78 @@ func (g *gen) top(depth int) (string, string) {
 		return g.pick("oddtopdoc", "null", "{}", "[]", "5", `"s"`, "true", "", " ", `{"t":0}{"t":1}`, `[{"t":0}]`, `{"t":0,"v":1} x`), "value"
 	}
 	return g.value(depth, 0), "value"
+}
+
+// versionScripts: the scripts of the battery in which x and y meet.
+var versionScripts = []string{"x == y", "y == x", "x != y", "[x] == [y]", "[y] == [x]", "{'k': x} == {'k': y}", "{'k': y} == {'k': x}", "x[0] == y[0]", "y[0] == x[0]",
+	"x[1] == y[1]", "y[1] == x[1]", "x[-1] == y[-1]", "y[-1] == x[-1]", "x.a == y.a", "y.a == x.a", "[x, y] == [y, x]", "x[0] == x[1]", "x[1] == x[0]", "x == [y[1], y[0]]",
+	"x(y)", "y(x)", "[x, y].kh()", "x + y", "y + x", "x.push(y); x == y", "g = [x, y]; g[0] == g[1]"}
+
+var paramsRe = regexp.MustCompile(`"params":(\[[^\[\]{}]*\]|null)`)
+var attrsRe = regexp.MustCompile(`,"attrs":\{`)
+var nameRe = regexp.MustCompile(`"name":"[^"]*","params"`)
+var listRe = regexp.MustCompile(`"list":\[`)
+var exprRe = regexp.MustCompile(`"expr":"[^"\\]*"`)
+
+// versionEdit rewrites one field of one node of doc the way another program version would have stored it.
+func versionEdit(t *rapid.T, doc string) (string, string) {
+	type edit struct {
+		kind     string
+		from, to int
+		text     string
+	}
+	var edits []edit
+	for _, m := range paramsRe.FindAllStringSubmatchIndex(doc, -1) {
+		cur := doc[m[2]:m[3]]
+		for _, alt := range []string{`[]`, `null`, `["zz"]`, `["g","h","zz"]`} {
+			if alt != cur {
+				edits = append(edits, edit{"params:" + alt, m[2], m[3], alt})
+			}
+		}
+		if strings.HasPrefix(cur, "[") && strings.Contains(cur, ",") {
+			edits = append(edits, edit{"params:one-shorter", m[2], m[3], cur[:strings.LastIndex(cur, ",")] + "]"})
+		}
+		if strings.HasPrefix(cur, "[") && len(cur) > 2 {
+			edits = append(edits, edit{"params:one-longer", m[2], m[3], cur[:len(cur)-1] + `,"zz"]`})
+		}
+		edits = append(edits, edit{"params:absent", m[0] - 1, m[1], ""}) // with the comma before it
+	}
+	for _, m := range attrsRe.FindAllStringIndex(doc, -1) {
+		if end := matchBrace([]byte(doc), m[1]-1); end > 0 {
+			edits = append(edits, edit{"attrs:absent", m[0], end + 1, ""})
+		}
+	}
+	for _, m := range nameRe.FindAllStringIndex(doc, -1) {
+		edits = append(edits, edit{"function:renamed", m[0], m[1], `"name":"renamed","params"`})
+	}
+	for _, m := range listRe.FindAllStringIndex(doc, -1) {
+		sep := ","
+		if m[1] < len(doc) && doc[m[1]] == ']' {
+			sep = ""
+		}
+		edits = append(edits, edit{"list:one-longer", m[1], m[1], `{"t":0,"v":1}` + sep})
+	}
+	for _, m := range exprRe.FindAllStringIndex(doc, -1) {
+		edits = append(edits, edit{"expr:changed", m[0], m[1], `"expr":"1 + 1"`})
+	}
+	if len(edits) == 0 {
+		return doc, "none"
+	}
+	// parameter lists first: they are the field a function gains and loses most often
+	var pe []edit
+	for _, e := range edits {
+		if strings.HasPrefix(e.kind, "params") {
+			pe = append(pe, e)
+		}
+	}
+	if len(pe) > 0 && uni(t, "editParams", 2) == 0 {
+		edits = pe
+	}
+	e := edits[uni(t, "edit", len(edits))]
+	if e.from < 0 || e.to > len(doc) || e.from > e.to {
+		return doc, "none"
+	}
+	return doc[:e.from] + e.text + doc[e.to:], strings.SplitN(e.kind, ":", 2)[0] + ":" + strings.SplitN(e.kind, ":", 2)[1]
 }
 
 // pickScripts draws k distinct-ish scripts of the battery.
@@ -1613,6 +1703,46 @@ func TestProp(t *testing.T) {
 			s.Report(t, f)
 		})
 
+	run.Check("versions", 3000, 40000,
+		"two versions of one stored value: a structure-aware random document (as in docs, value mode) is decoded as x, and y is decoded from an edited copy: one field of one node rewritten the way a later or earlier program version would have written it (a function's parameter list emptied, null, one name shorter or longer, or the field absent; a function renamed; a computed value's attributes absent; a list one element longer; an expression text changed); Go battery (which compares x with y both ways) plus 6 scripts drawn from the battery and 6 from its equality and container scripts; non-trivial = both versions decoded and differ; distinct by (document, edited document)",
+		func(t *rapid.T, s *rt.Section) {
+			g := &gen{t: t, wf: uni(t, "wellformed", 3) != 0}
+			depth := 3
+			if run.Env.Thorough() {
+				depth = 2 + uni(t, "depth", 3)
+			}
+			// functions and computed values are what versions differ in: make sure some are there
+			doc := g.value(depth, 0)
+			for try := 0; try < 4 && !strings.Contains(doc, `"params"`) && !strings.Contains(doc, `"attrs"`); try++ {
+				doc = `{"t":6,"v":{"list":[` + doc + `,{"t":8,"v":` + g.payload(8, depth-1, 1) + `},{"t":5,"v":` + g.payload(5, depth-1, 1) + `}]}}`
+			}
+			doc2, kind := versionEdit(t, doc)
+			scripts := pickScripts(t, 6)
+			for i := 0; i < 6; i++ {
+				scripts = append(scripts, uniStr(t, "eqscript", versionScripts))
+			}
+			c := newCase([]byte(doc), "value", scripts)
+			c.Doc2 = doc2
+			s.Crumb(c)
+			f, st := checkCase(c, s, opts{avoid: func(sw string) bool { return s.Avoid(sw) }})
+			both := false
+			if st.decoded && doc2 != doc {
+				if _, err := ds.VMValueFromJSON([]byte(doc2)); err == nil {
+					both = true
+				}
+			}
+			st.nontrivial = both && st.skipped == ""
+			account(s, c, st, "")
+			s.Class("edit:" + kind)
+			if both {
+				s.Class("both-versions-decode")
+			}
+			if len(doc) < 160 {
+				s.Sample(rt.Hash(doc, doc2), map[string]string{"doc": doc, "doc2": doc2})
+			}
+			s.Report(t, f)
+		})
+
 	run.Check("mutate", 6000, 80000,
 		"byte mutation of encoder output: a well-formed random value tree is decoded and re-encoded with ToJSON (value mode) or ValueMap.ToJSON (map mode), then 1..3 mutations are applied (delete 1..8 bytes, overwrite a byte with a structural character, insert a token such as null/{\"t\":3}/an unknown native/a field name, truncate, rewrite the number after a \"t\":, replace a whole element by null or junk); Go battery plus 8 scripts; non-trivial = the mutated document still decodes and is not what the encoder would write; distinct by (mode, document)",
 		func(t *rapid.T, s *rt.Section) {
@@ -1667,5 +1797,5 @@ func TestReplay(t *testing.T) {
 		}
 		return nil
 	}
-	rt.Replay(t, "C10", map[string]rt.ReplayFunc{"enum": fn, "docs": fn, "mutate": fn})
+	rt.Replay(t, "C10", map[string]rt.ReplayFunc{"enum": fn, "docs": fn, "mutate": fn, "versions": fn})
 }
